@@ -506,6 +506,17 @@ func errShapes(s *ErrSpec) []string {
 	if s.CustomConvert {
 		out = append(out, "custom_convert")
 	}
+	for _, f := range s.Fields {
+		switch f.Name {
+		case "Name", "Source", "Message":
+			if !contains(out, "shadows_gerror_field") {
+				out = append(out, "shadows_gerror_field")
+			}
+			if f.Type != "string" && !contains(out, "shadows_gerror_field_nonstring") {
+				out = append(out, "shadows_gerror_field_nonstring")
+			}
+		}
+	}
 	if len(s.Types) > 1 {
 		out = append(out, "two_types")
 	}
